@@ -184,8 +184,12 @@ class Lib:
         inv = fresh_fn("inv", I, I)
         st.assume(z3.ForAll([j], z3.Implies(z3.And(0 <= j, j < n, z3bool(mask.sel(j))),
                                             z3.And(0 <= inv(j), inv(j) < m, pos(inv(j)) == j))))
+        A = mask_array(mask.sel)
+        st.assume(m == CNT(A, n))                       # length of a[m] = number of True entries (definition of CNT)
+        for f in cnt_lemma_instances(A, n):
+            st.assume(f)
         res = ArrData((m,) + d.shape[1:], lambda i, *r: d.sel(pos(i), *r), d.kind)
-        res.filter_of = (mask, pos, m)
+        res.filter_of = (mask, pos, m, inv)
         return st.alloc(res)
 
     def array_store(self, E, d, sl, v, st, node):
@@ -1073,6 +1077,18 @@ def register_builtins(L):
                 k = to_int(args[1])
                 return st.alloc(ArrData((k, row.shape[0]), lambda i, j, row=row: row.sel(j), row.kind))
         return Opaque("repeat")
+
+    @fn("np.argwhere")
+    def _np_argwhere(E, st, args, kw, node):
+        """np.argwhere(mask) for a 1-D mask: (k, 1) array of the ascending positions of True"""
+        a = as_array(args[0], st) if isinstance(args[0], Ref) else None
+        if a is None or a.ndim != 1 or a.kind != "b":
+            return Opaque("argwhere")
+        r = L.filter(E, ArrData(a.shape, lambda i: i, "i"), a, st)
+        d = st.get(r)
+        res = ArrData((d.shape[0], 1), lambda i, j, d=d: d.sel(i), "i")
+        res.filter_of = d.filter_of
+        return st.alloc(res)
 
     @fn("np.isscalar")
     def _np_isscalar(E, st, args, kw, node):
